@@ -81,6 +81,7 @@ func main() {
 				hm := hashModes[j.idx%len(hashModes)]
 				g := kvlab.NewGen(r.Rand(caseName))
 				g.ImportLeases = true
+				g.EmptyBatches = true
 				if j.idx%4 == 3 {
 					g.BulkMax = 513 // Import / Export / RemoveKeys of whole key ranges (batching seams)
 				}
